@@ -4,6 +4,10 @@
 //! (weighted normal equations). Circles: three-point circle on integer triples, circle fit on arcs of 60..360 degrees
 //! from a ring of guesses, fixed-seed RANSAC on contaminated samples. Tolerances are scaled to the conditioning of
 //! each family (stated next to it); every clause failure reports the data set.
+//! ROUND 2: ordinates exactly 0.0 (incl. exactly K samples; a panic of least_squares is a failing input), a weight vector
+//! with a zero, tightly clustered distinct dyadic abscissae (exact power sums, tolerance scaled to the conditioning), circle
+//! fit from exactly 3..5 samples on small circles / short arcs in both BestFit modes incl. concentric guesses whose
+//! residuals are exactly equal, RANSAC with min_r / max_r exactly equal to the generating radius.
 use super::{close, Report};
 use crate::common::BestFit;
 use crate::func1::{Func1, Polynomial, Series1};
@@ -25,8 +29,15 @@ fn xsets() -> Vec<XSet> {
         XSet { name: "positive side only", xs: vec![0.0, 0.25, 0.5, 1.0, 1.5, 1.75, 2.0, 3.0, 3.5], max_k: 6, tol: 1e-6 },
         XSet { name: "clustered within 4e-4 of 1.0", xs: c13, max_k: 2, tol: 1e-5 },
         XSet { name: "clustered within 0.07 of -2.0", xs: (-4..=4).map(|k| -2.0 + k as f64 / 64.0).collect(), max_k: 3, tol: 1e-5 },
+        // round 2: tightly clustered DISTINCT abscissae with dyadic values (all power sums exact; the determinant of the normal
+        // matrix is tiny although the system is perfectly solvable).  The coefficient tolerance is scaled to the conditioning
+        XSet { name: "six values k/256 in [0, 0.02]", xs: (0..6).map(|k| k as f64 / 256.0).collect(), max_k: 3, tol: TOL_CLUSTER_Q },
+        XSet { name: "four values {2,3,4,6} * 2^-21 in [9.5e-7, 2.9e-6]", xs: [2.0, 3.0, 4.0, 6.0].iter().map(|k| k / 2097152.0).collect(), max_k: 2, tol: TOL_CLUSTER_L },
     ]
 }
+// measured on the reference build: <= 3e-11 (K = 3, normal matrix condition ~1e10) and <= 1e-15 (K = 2, closed-form 2x2 inverse)
+const TOL_CLUSTER_Q: f64 = 1e-7;
+const TOL_CLUSTER_L: f64 = 1e-9;
 const WEIGHTS: [[f64; 9]; 2] = [[1.0, 2.0, 0.5, 3.0, 1.5, 0.25, 4.0, 2.0, 0.75], [5.0, 0.125, 1.0, 1.0, 2.5, 3.0, 0.5, 6.0, 0.25]];
 const COEFFS: [[f64; 6]; 3] = [[1.0, -2.0, 3.0, 0.5, -1.0, 2.0], [-4.0, 1.0, 0.0, 2.0, 0.25, -0.5], [0.0, 0.0, 0.0, 0.0, 0.0, 1.0]];
 const DATA: [[f64; 9]; 2] = [[3.0, -1.0, 4.0, 1.0, -5.0, 9.0, 2.0, -6.0, 5.0], [0.5, 0.25, -2.0, 7.0, 1.0, -3.0, 8.0, 2.0, -0.75]];
@@ -78,6 +89,77 @@ fn check_poly<const K: usize>(r: &mut Report, s: &XSet) {
     }
 }
 
+// ---------------------------------------------------------------- round 2: ordinates exactly 0.0, exactly K samples, zero weights
+/// least_squares behind catch_unwind: a panic of the real code (singular normal matrix) is reported as a failing input
+fn fit_caught<const K: usize>(xs: &[f64], ys: &[f64], w: Option<&[f64]>) -> Option<Polynomial<K>> {
+    std::panic::catch_unwind(|| Polynomial::<K>::least_squares(xs, ys, w)).ok()
+}
+/// coefficients (lowest first) of prod (x - roots[j]) * (x + 5)^(K - 1 - roots.len()); small integers, exact
+fn poly_with_roots<const K: usize>(roots: &[f64]) -> [f64; K] {
+    let mut c = vec![1.0];
+    let mut fs: Vec<f64> = roots.to_vec();
+    while fs.len() < K - 1 { fs.push(-5.0); }
+    for f in fs.iter() {
+        let mut n = vec![0.0; c.len() + 1];
+        for (k, v) in c.iter().enumerate() { n[k + 1] += v; n[k] -= f * v; }
+        c = n;
+    }
+    let mut out = [0.0; K];
+    for k in 0..K { out[k] = c[k]; }
+    out
+}
+fn check_poly_zeros<const K: usize>(r: &mut Report) {
+    let all = [-1.0, 0.0, 1.0, 3.0, 2.0, -2.0, 4.0, 6.0];
+    let zdata: [[f64; 8]; 2] = [[0.0, -1.0, 0.0, 1.0, 0.0, 0.0, 2.0, 0.0], [3.0, 0.0, 0.0, 0.0, -2.0, 0.0, 0.5, 0.0]];
+    let zw = [1.0, 2.0, 0.0, 3.0, 1.5, 0.25, 4.0, 2.0];
+    let tol = 1e-6;
+    for n in [K, K + 1, 8] {
+        if n > all.len() { continue; }
+        let xs = all[..n].to_vec();
+        let mut wsets: Vec<Option<Vec<f64>>> = vec![None, Some(WEIGHTS[0][..n].to_vec())];
+        if n >= K + 1 { wsets.push(Some(zw[..n].to_vec())); }
+        for w in wsets.iter() {
+            let wv: Vec<f64> = match w { Some(v) => v.clone(), None => vec![1.0; n] };
+            // (a) exact samples of a polynomial with 1 / K-1 of its roots at the abscissae: ordinates exactly 0.0 there
+            for m in [1, K - 1] {
+                let c: [f64; K] = poly_with_roots::<K>(&xs[..m]);
+                let ys: Vec<f64> = xs.iter().map(|x| horner(&c, *x)).collect();
+                let zeros = ys.iter().filter(|y| **y == 0.0).count();
+                r.case();
+                let desc = |f: &Option<Polynomial<K>>| format!("K={} abscissae {:?} ordinates {:?} ({} of them exactly 0.0) weights {:?} coefficients {:?}: fit {:?}", K, xs, ys, zeros, w, c, f.as_ref().map(|p| p.c));
+                let fit = fit_caught::<K>(&xs, &ys, w.as_deref());
+                r.check(zeros >= m && fit.is_some(), "least_squares returns (no panic) on >= K distinct abscissae with ordinates that are exactly 0.0", || desc(&fit));
+                if let Some(f) = &fit {
+                    let cmax = c.iter().fold(1.0f64, |a, b| a.max(b.abs()));
+                    r.check((0..K).all(|k| (f.c[k] - c[k]).abs() <= tol * cmax), "exact samples of a polynomial of the fitted size return that polynomial", || desc(&fit));
+                }
+            }
+            // (b) arbitrary data with several ordinates exactly 0.0: weighted normal equations; with exactly K samples the fit interpolates
+            for d in zdata.iter() {
+                let ys = d[..n].to_vec();
+                r.case();
+                let fit = fit_caught::<K>(&xs, &ys, w.as_deref());
+                let desc = |f: &Option<Polynomial<K>>| format!("K={} abscissae {:?} data {:?} weights {:?}: fit {:?}", K, xs, ys, w, f.as_ref().map(|p| p.c));
+                r.check(fit.is_some(), "least_squares returns (no panic) on >= K distinct abscissae with ordinates that are exactly 0.0", || desc(&fit));
+                if let Some(f) = &fit {
+                    let res: Vec<f64> = (0..n).map(|i| ys[i] - horner(&f.c, xs[i])).collect();
+                    let mut ok = true;
+                    for j in 0..K {
+                        let dot: f64 = (0..n).map(|i| wv[i] * pw(xs[i], j) * res[i]).sum();
+                        let scale: f64 = (0..n).map(|i| wv[i] * pw(xs[i], j).abs() * (ys[i].abs() + (0..K).map(|k| (f.c[k] * pw(xs[i], k)).abs()).sum::<f64>())).sum();
+                        if !(dot.abs() <= tol * scale) { ok = false; }
+                    }
+                    r.check(ok, "residual orthogonal to every monomial column in the weighted inner product", || desc(&fit));
+                    if n == K {
+                        let ymax = ys.iter().fold(1.0f64, |a, b| a.max(b.abs()));
+                        r.check(res.iter().all(|e| e.abs() <= tol * 100.0 * ymax), "fit of exactly K samples interpolates them", || desc(&fit));
+                    }
+                }
+            }
+        }
+    }
+}
+
 fn check_series(r: &mut Report) {
     let c13: Vec<f64> = (-2..=2).map(|k| 1.0 + k as f64 / 8192.0).collect();
     let sets: Vec<(&str, Vec<f64>, f64)> = vec![
@@ -86,6 +168,8 @@ fn check_series(r: &mut Report) {
         ("two points", vec![1.0, 3.0], 1e-9),
         ("five distinct values within 2.5e-4 of 1.0", c13, 1e-5),
         ("distinct values within 0.004 of 0", vec![-0.00390625, -0.001953125, 0.0, 0.0009765625, 0.00390625], 1e-7),
+        ("four values {2,3,4,6} * 2^-21 in [9.5e-7, 2.9e-6]", [2.0, 3.0, 4.0, 6.0].iter().map(|k| k / 2097152.0).collect(), 1e-9),
+        ("six values k/256 in [0, 0.02]", (0..6).map(|k| k as f64 / 256.0).collect(), 1e-9),
     ];
     for (name, xs, tol) in sets.iter() {
         let n = xs.len();
@@ -223,15 +307,95 @@ fn check_ransac(r: &mut Report) {
     }
 }
 
+// ---------------------------------------------------------------- round 2: few samples, small circles, sigma-clipping mode, exact radius bounds
+fn mode_name(m: &BestFit) -> String { match m { BestFit::All => "All".to_string(), BestFit::Gaussian(s) => format!("Gaussian({:?})", s) } }
+fn recovered(res: &Option<Circle2>, cx: f64, cy: f64, rad: f64) -> bool {
+    match res { Some(c) => (c.x() - cx).abs() <= 1e-6 * rad && (c.y() - cy).abs() <= 1e-6 * rad && (c.r() - rad).abs() <= 1e-6 * rad, None => false }
+}
+/// the 12 integer points of x^2 + y^2 = 25 in counter-clockwise order starting at (5, 0)
+const LATTICE: [(f64, f64); 12] = [(5.0, 0.0), (4.0, 3.0), (3.0, 4.0), (0.0, 5.0), (-3.0, 4.0), (-4.0, 3.0), (-5.0, 0.0), (-4.0, -3.0), (-3.0, -4.0), (0.0, -5.0), (3.0, -4.0), (4.0, -3.0)];
+
+fn check_circle_fit_round2(r: &mut Report) {
+    const CLAUSE: &str = "circle fit from a nearby guess recovers centre and radius from exact samples (arc >= 60 degrees)";
+    // (a) exactly 3, 4, 5 samples on small circles / short arcs, both modes, ring of guesses + concentric guesses with a wrong radius
+    let circles = [(0.0, 0.0, 2.5e-4), (3.0, -2.0, 2.5e-4), (0.5, 0.25, 1.0e-3), (0.0, 0.0, 1.0e-3), (-1.0, 2.0, 0.125)];
+    let guesses = [(0.0, 0.0, 1.0), (0.1, 0.0, 0.9), (-0.1, 0.05, 1.1), (0.05, -0.15, 1.15), (-0.08, -0.08, 0.85), (0.0, 0.15, 1.0), (0.0, 0.0, 0.85), (0.0, 0.0, 1.15), (0.0, 0.0, 0.75)];
+    for (cx, cy, rad) in circles { for n in [3usize, 4, 5] {
+        let arcs = [(20.0, 60.0), (200.0, 100.0), (-45.0, 135.0), (10.0, 360.0 * (n - 1) as f64 / n as f64)];
+        for (a0, sw) in arcs { for (gx, gy, gs) in guesses { for mode in [BestFit::All, BestFit::Gaussian(3.0)] {
+            let guess = Circle2::new(cx + gx * rad, cy + gy * rad, rad * gs);
+            let pts = arc_points(cx, cy, rad, a0, sw, n, 0.0);
+            r.case();
+            let res = Circle2::fitting_circle(&pts, &guess, mode).ok();
+            r.check(recovered(&res, cx, cy, rad), CLAUSE, || format!("fitting_circle({} samples of circle ({:?}, {:?}, r {:?}) over [{:?}, {:?}] degrees: {:?}, guess ({:?}, {:?}, r {:?}), {}) -> {:?}", n, cx, cy, rad, a0, a0 + sw, pts.iter().map(|p| (p.x, p.y)).collect::<Vec<_>>(), guess.x(), guess.y(), guess.r(), mode_name(&mode), res.map(|c| (c.x(), c.y(), c.r()))));
+        } } }
+    } }
+    // (b) exactly representable samples (integer points of x^2+y^2=25, shifted by integers / scaled by 1/16): with a concentric
+    // guess all initial residuals are EXACTLY equal (standard deviation exactly 0.0 in the sigma-clipping mode)
+    let subsets: Vec<(&str, Vec<usize>)> = vec![
+        ("3 points", vec![2, 5, 9]), ("4 axis points", vec![0, 3, 6, 9]), ("5 points on a 106 degree arc", vec![10, 11, 0, 1, 2]),
+        ("3 points on a 74 degree arc", vec![0, 1, 2]), ("all 12 points", (0..12).collect()),
+    ];
+    for (ox, oy, sc) in [(0.0, 0.0, 1.0), (7.0, -3.0, 1.0), (0.5, 0.25, 0.0625)] { for (sn, idx) in subsets.iter() {
+        let pts: Vec<Point2> = idx.iter().map(|k| Point2::new(ox + LATTICE[*k].0 * sc, oy + LATTICE[*k].1 * sc)).collect();
+        let rad = 5.0 * sc;
+        for (gx, gy, gr) in [(0.0, 0.0, 4.0), (0.0, 0.0, 6.0), (0.0, 0.0, 5.5), (0.0, 0.0, 5.0), (0.25, -0.5, 4.5)] {
+            let mut modes = vec![BestFit::All, BestFit::Gaussian(3.0)];
+            if idx.len() <= 5 { modes.push(BestFit::Gaussian(2.0)); }
+            for mode in modes {
+                let guess = Circle2::new(ox + gx * sc, oy + gy * sc, gr * sc);
+                r.case();
+                let res = Circle2::fitting_circle(&pts, &guess, mode).ok();
+                r.check(recovered(&res, ox, oy, rad), CLAUSE, || format!("fitting_circle({}: {:?} on circle ({:?}, {:?}, r {:?}), guess ({:?}, {:?}, r {:?}), {}) -> {:?}", sn, pts.iter().map(|p| (p.x, p.y)).collect::<Vec<_>>(), ox, oy, rad, guess.x(), guess.y(), guess.r(), mode_name(&mode), res.map(|c| (c.x(), c.y(), c.r()))));
+            }
+        }
+    } }
+    // (c) the 40-sample exact arcs of round 1 in the sigma-clipping mode
+    let circles = [(0.0, 0.0, 1.0), (3.0, -2.0, 5.0), (-40.0, 25.0, 12.5), (0.5, 0.25, 0.125)];
+    let arcs = [(0.0, 360.0), (17.0, 60.0), (200.0, 90.0), (-45.0, 135.0), (10.0, 200.0), (90.0, 270.0)];
+    for (cx, cy, rad) in circles { for (a0, sw) in arcs { for (gx, gy, gs) in guesses {
+        let guess = Circle2::new(cx + gx * rad, cy + gy * rad, rad * gs);
+        let pts = arc_points(cx, cy, rad, a0, sw, 40, 0.0);
+        r.case();
+        let res = Circle2::fitting_circle(&pts, &guess, BestFit::Gaussian(3.0)).ok();
+        r.check(recovered(&res, cx, cy, rad), CLAUSE, || format!("fitting_circle(40 samples of circle ({:?}, {:?}, r {:?}) over [{:?}, {:?}] degrees, guess ({:?}, {:?}, r {:?}), Gaussian(3.0)) -> {:?}", cx, cy, rad, a0, a0 + sw, guess.x(), guess.y(), guess.r(), res.map(|c| (c.x(), c.y(), c.r()))));
+    } } }
+}
+
+fn check_ransac_round2(r: &mut Report) {
+    // the 12 integer points of the generating circle (radius exactly 5.0; every three-point circle through three of them has
+    // centre and radius exact) + 7 outliers; radius bounds exactly at the generating radius (documented as inclusive)
+    for (ox, oy) in [(0.0, 0.0), (7.0, -3.0)] {
+        let mut pts: Vec<Point2> = LATTICE.iter().map(|(x, y)| Point2::new(ox + x, oy + y)).collect();
+        for (k, (x, y)) in [(1.0, 1.0), (2.0, -1.0), (7.0, 7.0), (-6.0, 2.0), (0.0, 3.0), (-8.0, -8.0), (2.0, 6.0)].iter().enumerate() { pts.insert((k * 3 + 1) % pts.len(), Point2::new(ox + x, oy + y)); }
+        let tol = 0.01;
+        let gen = Circle2::new(ox, oy, 5.0);
+        let count = |c: &Circle2| pts.iter().filter(|p| c.distance_to(p).abs() < tol).count();
+        for (lo, hi) in [(None, Some(5.0)), (Some(5.0), None), (Some(5.0), Some(5.0)), (Some(2.5), Some(5.0)), (Some(5.0), Some(10.0)), (None, None)] {
+            r.case();
+            let res = Circle2::ransac(&pts, tol, None, lo, hi);
+            let within = |c: &Circle2| lo.map_or(true, |v| c.r() >= v) && hi.map_or(true, |v| c.r() <= v);
+            r.check(match &res { Ok(c) => count(c) >= count(&gen) && within(c), Err(_) => false }, "seeded RANSAC circle within a radius window has at least as many inliers as the generating circle",
+                || format!("ransac({:?}: the 12 integer points of circle ({:?}, {:?}, r 5) + 7 outliers, tol 0.01, default iterations, min_r {:?}, max_r {:?}) -> {:?}; generating circle has {} inliers", pts.iter().map(|p| (p.x, p.y)).collect::<Vec<_>>(), ox, oy, lo, hi, res.as_ref().map(|c| (c.x(), c.y(), c.r(), count(c))).map_err(|_| "Err"), count(&gen)));
+        }
+    }
+}
+
 pub fn run() -> Option<Report> {
-    let mut r = Report::new("polynomial sizes K=2..=6 x 6 abscissa sets (asymmetric integers, dyadic offset from zero, uneven both signs, positive side, 7 values within 4e-4 of 1.0 [K=2], 9 values within 0.07 of -2 [K<=3]) x {no weights, 2 non-uniform positive weight vectors} x {3 exact coefficient vectors, 2 arbitrary data vectors}; Series1 lines on 5 abscissa sets incl. clustered distinct values x 5 data vectors; three-point circles on all ordered triples of 10 points with |det| >= 1 and on 6 lines x all ordered triples of 8 parameters (exactly collinear and collinear up to rounding); circle fit on 4 circles x 6 arcs (60..360 degrees, 40 samples) x 6 guesses (centre within 0.16 r, radius within 15%) x {exact, perturbed 2% r, perturbed 8% r}; RANSAC on 3 contaminated sample sets (36 inliers + 8/12/18 outliers)");
+    let mut r = Report::new("polynomial sizes K=2..=6 x 6 abscissa sets (asymmetric integers, dyadic offset from zero, uneven both signs, positive side, 7 values within 4e-4 of 1.0 [K=2], 9 values within 0.07 of -2 [K<=3]) x {no weights, 2 non-uniform positive weight vectors} x {3 exact coefficient vectors, 2 arbitrary data vectors}; Series1 lines on 5 abscissa sets incl. clustered distinct values x 5 data vectors; three-point circles on all ordered triples of 10 points with |det| >= 1 and on 6 lines x all ordered triples of 8 parameters (exactly collinear and collinear up to rounding); circle fit on 4 circles x 6 arcs (60..360 degrees, 40 samples) x 6 guesses (centre within 0.16 r, radius within 15%) x {exact, perturbed 2% r, perturbed 8% r}; RANSAC on 3 contaminated sample sets (36 inliers + 8/12/18 outliers); ROUND 2: polynomial sizes K=2..=6 on {K, K+1, 8} distinct integer abscissae with ordinates that are exactly 0.0 (exact samples of polynomials with 1 / K-1 roots at the abscissae, 2 data vectors with 3..5 zeros) x {no weights, positive weights, weights with one 0.0 [more than K samples]}, a panic counts as a failing input; tightly clustered distinct dyadic abscissae: six values k/256 in [0, 0.02] (K <= 3, coefficient tolerance 1e-7) and four values {2,3,4,6}*2^-21 in [9.5e-7, 2.9e-6] (K = 2, tolerance 1e-9), also for Series1; circle fit from exactly 3 / 4 / 5 samples on 5 circles (r = 2.5e-4, 1e-3, 0.125) x 4 arcs (60 .. 288 degrees) x 9 guesses (ring of round 1 + concentric with the radius off by 15% / 25%) x {All, Gaussian(3.0)}; exactly representable samples (integer points of x^2+y^2=25, shifted / scaled by 1/16, 5 subsets of 3..12 points) x 5 guesses (4 concentric with a wrong / the right radius) x {All, Gaussian(3.0), Gaussian(2.0)}; the 40-sample exact arcs in Gaussian(3.0) mode; RANSAC on the 12 integer points of a radius-5 circle + 7 outliers with min_r / max_r exactly 5.0 (6 windows x 2 centres)");
     for s in xsets().iter() {
         check_poly::<2>(&mut r, s); check_poly::<3>(&mut r, s); check_poly::<4>(&mut r, s); check_poly::<5>(&mut r, s); check_poly::<6>(&mut r, s);
     }
+    let hook = std::panic::take_hook();
+    std::panic::set_hook(Box::new(|_| {}));
+    check_poly_zeros::<2>(&mut r); check_poly_zeros::<3>(&mut r); check_poly_zeros::<4>(&mut r); check_poly_zeros::<5>(&mut r); check_poly_zeros::<6>(&mut r);
+    std::panic::set_hook(hook);
     check_series(&mut r);
     check_three_points(&mut r);
     check_circle_fit(&mut r);
     check_ransac(&mut r);
+    check_circle_fit_round2(&mut r);
+    check_ransac_round2(&mut r);
     let _ = close(0.0, 0.0);
     Some(r)
 }
